@@ -204,6 +204,15 @@ def c14_workload(rng, tier):
     for k in range(2, 170 if tier == "quick" else 400):
         s = f"C{k}/" + "".join(f"({i}-{i + 1})" for i in range(1, min(k, 6)))
         items.append({"key": f"parse|{s[:40]}|many", "op": "parse", "arg": s})
+    # rejected strings in the same cycle: several callers inside the parser's error path at the same time
+    bad = [f"C{k}/(1-" for k in range(2, 14)] + [f"C{k}" for k in range(2, 10)] + [f"C{k}/(1-2))" for k in range(2, 8)] + \
+          [f"H{k}C/" for k in range(2, 8)] + ["", "-/", "CH4", "C2/(1-2)/(", "C2//(1:mass=)", "C2/(1-3)", "C2/(0-1)", "C2/(2-2)"]
+    for s in bad:
+        items.append({"key": f"parse|{s[:40]}|bad|many", "op": "parse", "arg": s})
+    # strings whose elements come late in the alphabet: the first calls of a fresh process (c14_worker.py: main_threads)
+    for s in ["F6U/(1-7)(2-7)(3-7)(4-7)(5-7)(6-7)", "CH3Zr/(1-5)(2-5)(3-5)(4-5)", "O2Zr/(1-3)(2-3)", "Cl2Zn/(1-3)(2-3)", "Xe/", "HY/(1-2)", "C2H6W/(1-9)(2-9)(3-9)(4-8)(5-8)(6-8)(7-9)(7-8)",
+              "OgTs/(1-2)", "H2Yb/(1-3)(2-3)", "C6H6/(1-7)(2-8)(3-9)(4-10)(5-11)(6-12)(7-8)(7-9)(8-10)(9-11)(10-12)(11-12)"]:
+        items.append({"key": f"norm|{s[:40]}|first", "op": "norm", "arg": s})
     for s in strings:
         for op in ("parse", "norm", "writeparsed"):
             items.append({"key": f"{op}|{s[:40]}|{hashlib.sha1(s.encode()).hexdigest()[:8]}", "op": op, "arg": s})
@@ -217,10 +226,14 @@ def run_workers(items, configs):
         wl = os.path.join(tmp, "workload.json")
         json.dump(items, open(wl, "w"))
         procs = []
-        for hs, os_ in configs:
+        for cfg in configs:
+            hs, os_ = cfg[0], cfg[1]
+            mode = cfg[2] if len(cfg) > 2 else ""
             env = dict(os.environ, PYTHONHASHSEED=str(abs(hs)))
+            if mode == "logdebug":
+                env["VERIF_LOGDEBUG"] = "1"             # the embedding application has switched logging to DEBUG
             flags = ["-O"] if hs < 0 else []          # a negative "seed" = an optimized interpreter (assert statements stripped)
-            procs.append(subprocess.Popen(["/venv/bin/python", *flags, os.path.join(HERE, "c14_worker.py"), wl, str(os_), gen.REPO],
+            procs.append(subprocess.Popen(["/venv/bin/python", *flags, os.path.join(HERE, "c14_worker.py"), wl, str(os_), gen.REPO] + (["threads"] if mode == "threads" else []),
                                           stdout=subprocess.PIPE, stderr=subprocess.PIPE, text=True, env=env))
         outs = []
         for p in procs:
@@ -392,6 +405,9 @@ def c14(out, tier, rng):
         out.design("MC_Threads", thr_cfg("{1, 2}", "OpsParse2", "local", "copy", "shared", 3, "Water"), must_fail="SameAsSequential", label="control: shared parser state")
     items = c14_workload(rng, tier)
     configs = [(hs, rng.randrange(10**6)) for hs in ([0, 1, 2, 3, 4, 5, 6, -7] if tier == "quick" else list(range(0, 30)) + [-30, -31])]
+    configs += [(1, rng.randrange(10**6), "logdebug")]
+    base = rng.randrange(10**6) * 5
+    configs += [(k % 3, base + k, "threads") for k in range(15 if tier == "quick" else 60)]     # fresh processes whose first calls of one operation (order seed mod 5) are concurrent
     runs = run_workers(items, configs)
     sched_res = scheduled_results(rng, tier, out)
     runs += threaded_results(items, 4 if tier == "quick" else 8, rng)
